@@ -22,10 +22,19 @@ import (
 // are legitimately left alone and keep the old bytes/xattrs; everything else
 // is (re)created from the source view. created lists the directories the
 // transfer creates (directory mtime/xattrs are demanded only for those).
-func expectSync(src, old *tree.Tree) (*tree.Tree, map[string]bool) {
+func expectSync(src, old *tree.Tree, gotOpt ...*tree.Tree) (*tree.Tree, map[string]bool) {
 	exp := src.Clone()
 	created := map[string]bool{}
 	oi := old.Index()
+	// hard-link timing exception (C02): such an entry is either left alone
+	// (old inode, old bytes/xattrs) or re-created; the observed inode tells which
+	_, either := changedSet(old, src)
+	var gi map[string]int
+	var got *tree.Tree
+	if len(gotOpt) > 0 && gotOpt[0] != nil {
+		got = gotOpt[0]
+		gi = got.Index()
+	}
 	for i := range exp.Entries {
 		e := &exp.Entries[i]
 		j, ok := oi[e.Path]
@@ -45,6 +54,11 @@ func expectSync(src, old *tree.Tree) (*tree.Tree, map[string]bool) {
 		if identityEqual(o, e) {
 			e.Data = o.Data
 			e.Xattrs = o.Xattrs
+		} else if either[e.Path] && got != nil {
+			if k, ok := gi[e.Path]; ok && got.Entries[k].Ino == o.Ino && got.Entries[k].Dev == o.Dev {
+				e.Data = o.Data
+				e.Xattrs = o.Xattrs
+			}
 		}
 	}
 	// members of a link group share the inode of their first member
@@ -242,6 +256,24 @@ func c01Run(c *core.Ctx) *core.Result {
 			}
 		}
 	}
+	if unpriv && R.P(1, 2) {
+		// targeted: read-only file with xattrs and several hard links (the
+		// content writer and the link members touch the same inode)
+		ro := tree.Entry{Path: "0ro", Type: tree.File, Perm: core.Pick(R, []uint32{0400, 0444, 04555}), UID: 1234, GID: 1234, Mtime: 1e18,
+			Data: R.Bytes(core.Pick(R, []int{1, 4096, 40000, 70000})), Xattrs: map[string][]byte{"user.k1": R.Bytes(6)}}
+		if src.Get(ro.Path) == nil {
+			src.Put(ro)
+			for i := 0; i < R.Range(2, 6); i++ {
+				m := ro.Clone()
+				m.Path = fmt.Sprintf("0ro.l%d", i)
+				m.LinkTo = ro.Path
+				if src.Get(m.Path) == nil {
+					src.Put(m)
+				}
+			}
+			src.Recanon()
+		}
+	}
 	var prior *tree.Tree
 	kinds := []string{"empty", "unrelated", "mutated", "collide", "leftovers"}
 	kind := core.Pick(R, kinds)
@@ -337,8 +369,7 @@ func c01Run(c *core.Ctx) *core.Result {
 	} else {
 		res = runSync(so)
 	}
-	if res.TimedOut {
-		r.Inconclusive = "watchdog: transfer did not finish"
+	if checkHang(r, res, cfg) {
 		return r
 	}
 	r.Count("transfers", 1)
@@ -365,7 +396,7 @@ func c01Run(c *core.Ctx) *core.Result {
 	if merge {
 		exp, created = expectMerge(view, old)
 	} else {
-		exp, created = expectSync(view, old)
+		exp, created = expectSync(view, old, got)
 	}
 	diffs := tree.Diff(exp, got, syncMask(created))
 	r.Count("entries_compared", int64(len(exp.Entries)))
